@@ -8,6 +8,7 @@ package main
 // chains, not execution.
 
 import (
+	"go/ast"
 	"fmt"
 	"go/constant"
 	"go/token"
@@ -324,6 +325,7 @@ type termEnv struct {
 	// to the terms already stored there
 	ctorAlloc ssa.Value
 	ctorInfo  *ctorInfo
+	valueHelpers bool // opt-in: also unfold unexported store-free helpers that make calls (see isValueHelper)
 }
 
 // isPureHelper: small, loop-free, no stores, no calls except to other pure helpers / builtins.
@@ -354,6 +356,28 @@ func isPureHelper(fn *ssa.Function, depth int) bool {
 	return true
 }
 
+// isValueHelper: an unexported, loop-free, small function without stores, sends, defers or goroutines: what it returns
+// is a function of its arguments, of memory it only reads, and of the results of the calls it makes.
+func isValueHelper(fn *ssa.Function) bool {
+	if len(fn.Blocks) == 0 || len(fn.Blocks) > 8 || hasLoop(fn) || ast.IsExported(fn.Name()) || fn.Signature.Results().Len() == 0 {
+		return false
+	}
+	for _, b := range fn.Blocks {
+		for _, in := range b.Instrs {
+			switch x := in.(type) {
+			case *ssa.Store:
+				// stores into the function's own locals (variadic argument arrays, spilled variables) are invisible outside
+				if !isLocalAddr(x.Addr) {
+					return false
+				}
+			case *ssa.Defer, *ssa.Go, *ssa.Send, *ssa.MapUpdate, *ssa.Panic, *ssa.Select:
+				return false
+			}
+		}
+	}
+	return true
+}
+
 type ctorInfo struct {
 	T       *types.Named
 	Ctor    *ssa.Function
@@ -366,7 +390,7 @@ func newTermEnv(w *World) *termEnv {
 }
 
 func (e *termEnv) child() *termEnv {
-	n := &termEnv{w: e.w, bind: map[ssa.Value]*Term{}, depth: e.depth + 1, recvOf: e.recvOf, visited: map[ssa.Value]bool{}, pathPred: map[*ssa.BasicBlock]*ssa.BasicBlock{}, forceInline: e.forceInline}
+	n := &termEnv{w: e.w, bind: map[ssa.Value]*Term{}, depth: e.depth + 1, recvOf: e.recvOf, visited: map[ssa.Value]bool{}, pathPred: map[*ssa.BasicBlock]*ssa.BasicBlock{}, forceInline: e.forceInline, valueHelpers: e.valueHelpers}
 	return n
 }
 
@@ -840,6 +864,13 @@ func (e *termEnv) callTerm(c *ssa.Call) *Term {
 			return t
 		}
 	}
+	// an unexported loop-free helper that stores nothing is transparent for the VALUE it returns, even if it logs or
+	// calls getters on the way (an extracted computation); explicitly pinned functions (forceInline == false) stay calls
+	if pinned, isSet := e.forceInline[callee]; e.valueHelpers && !(isSet && !pinned) && e.w.IsRepoFunc(callee) && isValueHelper(callee) && e.depth < 4 {
+		if t := e.inline(callee, cc.Args); t != nil && !t.HasUnknown() {
+			return t
+		}
+	}
 	return mk("call", full, args...)
 }
 
@@ -1097,6 +1128,7 @@ type Path struct {
 	Ret     *ssa.Return
 	Blocks  []*ssa.BasicBlock
 	PhiBind map[*ssa.Phi]ssa.Value
+	Bind    map[ssa.Value]*Term // bindings in force when the path was emitted (parameters / results of unfolded callees)
 }
 
 // enumPaths enumerates all acyclic paths from entry to a return/panic; back edges are not followed
@@ -1151,6 +1183,16 @@ func enumPaths(e *termEnv, fn *ssa.Function, limit int) (paths []*Path, complete
 				return
 			case *ssa.If:
 				c := e.termOf(x.Cond)
+				// a condition that is a constant on this path (a short-circuit value whose phi edge is fixed by the
+				// way the path came) has only one feasible branch
+				if c.Op == "const" && (c.Name == "true" || c.Name == "false") {
+					i := 0
+					if c.Name == "false" {
+						i = 1
+					}
+					walk(b.Succs[i], b, cur, onPath)
+					return
+				}
 				for i := 0; i < 2; i++ {
 					cur.Conds = append(cur.Conds[:nCond], Guard{Cond: c, Pos: i == 0, If: x})
 					walk(b.Succs[i], b, cur, onPath)
@@ -1191,6 +1233,9 @@ func (p *Path) Term(e *termEnv, v ssa.Value) *Term {
 	ce := e.child()
 	ce.depth = e.depth
 	for k, t := range e.bind {
+		ce.bind[k] = t
+	}
+	for k, t := range p.Bind {
 		ce.bind[k] = t
 	}
 	for _, b := range p.Blocks {
@@ -1376,4 +1421,192 @@ func onlyEntryFrom(s, d *ssa.BasicBlock) bool {
 		}
 	}
 	return n == 1
+}
+
+// isLocalAddr: the address is (an element or field of) a local allocation of the function.
+func isLocalAddr(v ssa.Value) bool {
+	for i := 0; i < 4; i++ {
+		switch x := v.(type) {
+		case *ssa.Alloc:
+			return true
+		case *ssa.IndexAddr:
+			v = x.X
+		case *ssa.FieldAddr:
+			v = x.X
+		default:
+			return false
+		}
+	}
+	return false
+}
+
+// enumPathsInl is enumPaths that also unfolds calls to the functions accepted by inl (same-package helpers a
+// refactoring may have extracted): the callee's paths are spliced into the caller's - its instructions and
+// conditions join the path, its parameters are bound to the argument terms and the call's value to the term the callee
+// returns on that path. Recursion and more than two levels are not unfolded (the call then stays an ordinary call).
+func enumPathsInl(e *termEnv, fn *ssa.Function, limit int, inl func(*ssa.Function) bool) (paths []*Path, complete bool) {
+	complete = true
+	cur := &Path{PhiBind: map[*ssa.Phi]ssa.Value{}}
+	type ctx struct {
+		fn     *ssa.Function
+		onPath map[*ssa.BasicBlock]bool
+		kont   func(rets []*Term)
+		depth  int
+		parent *ctx
+	}
+	setBind := func(v ssa.Value, t *Term) func() {
+		old, had := e.bind[v]
+		e.bind[v] = t
+		return func() {
+			if had {
+				e.bind[v] = old
+			} else {
+				delete(e.bind, v)
+			}
+		}
+	}
+	var walkFrom func(c *ctx, b, pred *ssa.BasicBlock, start int)
+	walkFrom = func(c *ctx, b, pred *ssa.BasicBlock, start int) {
+		if len(paths) >= limit {
+			complete = false
+			return
+		}
+		nInstr, nCond, nBlk := len(cur.Instrs), len(cur.Conds), len(cur.Blocks)
+		var undo []func()
+		if start == 0 {
+			if c.onPath[b] {
+				complete = false
+				return
+			}
+			c.onPath[b] = true
+			undo = append(undo, func() { delete(c.onPath, b) })
+			cur.Blocks = append(cur.Blocks, b)
+		}
+		defer func() {
+			cur.Instrs, cur.Conds, cur.Blocks = cur.Instrs[:nInstr], cur.Conds[:nCond], cur.Blocks[:nBlk]
+			for i := len(undo) - 1; i >= 0; i-- {
+				undo[i]()
+			}
+		}()
+		for i := start; i < len(b.Instrs); i++ {
+			switch x := b.Instrs[i].(type) {
+			case *ssa.Phi:
+				for j, p := range b.Preds {
+					if p == pred {
+						old, had := cur.PhiBind[x]
+						cur.PhiBind[x] = x.Edges[j]
+						undo = append(undo, func() {
+							if had {
+								cur.PhiBind[x] = old
+							} else {
+								delete(cur.PhiBind, x)
+							}
+						})
+						undo = append(undo, setBind(x, e.termOf(x.Edges[j])))
+					}
+				}
+			case *ssa.Call:
+				cur.Instrs = append(cur.Instrs, x)
+				callee := x.Call.StaticCallee()
+				rec := false
+				for p := c; p != nil; p = p.parent {
+					if p.fn == callee {
+						rec = true
+					}
+				}
+				if callee != nil && inl != nil && len(callee.Blocks) > 0 && c.depth < 2 && !rec && inl(callee) {
+					var unb []func()
+					for pi, p := range callee.Params {
+						if pi < len(x.Call.Args) {
+							unb = append(unb, setBind(p, e.termOf(x.Call.Args[pi])))
+						}
+					}
+					bb, ii := b, i
+					nc := &ctx{fn: callee, onPath: map[*ssa.BasicBlock]bool{}, depth: c.depth + 1, parent: c}
+					nc.kont = func(rets []*Term) {
+						var rt *Term
+						switch len(rets) {
+						case 0:
+							rt = mk("tuple", "")
+						case 1:
+							rt = rets[0]
+						default:
+							rt = mk("tuple", "", rets...)
+						}
+						un := setBind(x, rt)
+						walkFrom(c, bb, pred, ii+1)
+						un()
+					}
+					walkFrom(nc, callee.Blocks[0], nil, 0)
+					for k := len(unb) - 1; k >= 0; k-- {
+						unb[k]()
+					}
+					return
+				}
+			case *ssa.Store, *ssa.Defer, *ssa.Go, *ssa.Send, *ssa.RunDefers:
+				cur.Instrs = append(cur.Instrs, b.Instrs[i])
+			case *ssa.Return:
+				if c.kont != nil {
+					var rets []*Term
+					for _, rv := range x.Results {
+						rets = append(rets, e.termOf(rv))
+					}
+					c.kont(rets)
+					return
+				}
+				cp := &Path{Conds: append([]Guard{}, cur.Conds...), Instrs: append([]ssa.Instruction{}, cur.Instrs...), Ret: x, Blocks: append([]*ssa.BasicBlock{}, cur.Blocks...),
+					PhiBind: map[*ssa.Phi]ssa.Value{}, Bind: map[ssa.Value]*Term{}}
+				for k, v := range cur.PhiBind {
+					cp.PhiBind[k] = v
+				}
+				for k, v := range e.bind {
+					cp.Bind[k] = v
+				}
+				paths = append(paths, cp)
+				return
+			case *ssa.Panic:
+				return
+			case *ssa.Jump:
+				walkFrom(c, b.Succs[0], b, 0)
+				return
+			case *ssa.If:
+				cond := e.termOf(x.Cond)
+				if cond.Op == "const" && (cond.Name == "true" || cond.Name == "false") {
+					k := 0
+					if cond.Name == "false" {
+						k = 1
+					}
+					walkFrom(c, b.Succs[k], b, 0)
+					return
+				}
+				nc := len(cur.Conds)
+				for k := 0; k < 2; k++ {
+					cur.Conds = append(cur.Conds[:nc], Guard{Cond: cond, Pos: k == 0, If: x})
+					walkFrom(c, b.Succs[k], b, 0)
+				}
+				return
+			}
+		}
+	}
+	walkFrom(&ctx{fn: fn, onPath: map[*ssa.BasicBlock]bool{}}, fn.Blocks[0], nil, 0)
+	return
+}
+
+// sameTypeHelper accepts unexported functions of fn's package (methods on any receiver included) as unfoldable helpers.
+func unexportedHelperOf(fn *ssa.Function) func(*ssa.Function) bool {
+	return func(callee *ssa.Function) bool {
+		return callee.Pkg != nil && callee.Pkg == fn.Pkg && !ast.IsExported(callee.Name()) && callee.Synthetic == ""
+	}
+}
+
+// sameReceiverHelperOf accepts the unexported, loop-free methods on fn's own receiver type (what "extract method"
+// produces).
+func sameReceiverHelperOf(fn *ssa.Function) func(*ssa.Function) bool {
+	rv := fn.Signature.Recv()
+	return func(callee *ssa.Function) bool {
+		if rv == nil || callee.Signature.Recv() == nil || ast.IsExported(callee.Name()) || callee.Synthetic != "" || hasLoop(callee) {
+			return false
+		}
+		return types.Identical(callee.Signature.Recv().Type(), rv.Type())
+	}
 }
